@@ -684,6 +684,8 @@ func checkC02(r *Run) {
 	stringScannerRuleSSA(r, "R6")
 	r.Rule("R7", "the template text reaches the lexer as it was given: from the entry points (NewTemplate, Parse, Render, the partial helper) over Template.Input and parser.Parse to the lexer's input every hop hands on a parameter, a text field or bytes read from outside - never the result of a call that rewrites the text", 1)
 	textPipelineRule(r, "R7")
+	r.Rule("R8", "the output an exit object carries is handed on whole: the slice kept in a return/break/continue object is ranged over, spread into an append, measured, stored or passed on - never indexed by a computed index or cut", 1)
+	exitValueWholeRule(r, "R8")
 }
 
 func topLevelWriteRule(r *Run, rule string) {
